@@ -29,13 +29,20 @@ def rot(r, v):
     return tuple(signs[i] * v[perm[i]] for i in range(3))
 
 
-def with_hydrogens_text(name):
-    """the fixture with the program's own hydrogens written back (3 decimals)"""
+def with_hydrogens_text(name, xh=None):
+    """the fixture with the program's own hydrogens written back (3 decimals); xh: re-scale every X-H bond to
+    this length (riding hydrogens as refinement programs write them, e.g. N-H 0.86 A): these are NOT the positions
+    the program would build, so whether a supplied hydrogen is perceived as bonded matters"""
     base = M.run(M.text(name))
     lines = []
     conf = base.conformations['1A']
     for i, a in enumerate(conf.atoms):
-        lines.append(H.pdb_line(i + 1, a.name, a.res_name.strip(), a.chain_id, a.res_num, a.x, a.y, a.z, element=a.element))
+        x, y, z = a.x, a.y, a.z
+        if xh and a.element == 'H' and a.bonded_atoms:
+            p = a.bonded_atoms[0]
+            d = ((x - p.x) ** 2 + (y - p.y) ** 2 + (z - p.z) ** 2) ** 0.5
+            x, y, z = [round(pc + (hc - pc) * xh / d, 3) for pc, hc in ((p.x, x), (p.y, y), (p.z, z))]
+        lines.append(H.pdb_line(i + 1, a.name, a.res_name.strip(), a.chain_id, a.res_num, x, y, z, element=a.element))
     return ''.join(lines) + 'TER   \n'
 
 
@@ -46,7 +53,7 @@ def baseline(name, keep, extra_args=(), params=None):
     key = (name, keep, tuple(extra_args), bool(params))
     if key not in _CACHE:
         if keep:
-            txt = with_hydrogens_text(name)
+            txt = with_hydrogens_text(name, xh=0.86 if keep == 'short' else None)
             _CACHE[key] = (txt, M.run(txt, args=['--keep-protons'], params=params))
         else:
             txt = M.text(name)
@@ -239,6 +246,12 @@ def obligations(tier):
                                       mk_translate(name, ax, 0.0, 2.509, keep, params=M.BURIED), code=code_pipe,
                                       bounds='%s with Nmin/Nmax lowered to 6/30 shifted by t = k/1000 along %s, t in [0,2.509]' % (name, axn),
                                       claim_doc='as O1-translation', max_paths=5000, wall_s=170 if tier == 'quick' else 1200))
+    # supplied hydrogens that are not where the program would put them (X-H 0.86 A), keep-protons
+    for name in (['tri_ARG', 'pair_ASP_ARG'] if tier == 'quick' else ['tri_ARG', 'pair_ASP_ARG', 'tri_HIS', 'tri_ASN', 'pep8', 'pair_GLU_ARG_TYR']):
+        for ax, axn in axes[:3]:
+            obs.append(Obligation('O1-translation[%s,%s,keep-protons,riding-hydrogens]' % (name, axn), mk_translate(name, ax, 0.0, 2.509, 'short'), code=code_pipe,
+                                  bounds='%s with supplied hydrogens at X-H 0.86 A (--keep-protons) shifted by t = k/1000 along %s, t in [0,2.509]' % (name, axn),
+                                  claim_doc='bonds, groups and every pKa/determinant identical to the unshifted run', max_paths=5000, wall_s=170 if tier == 'quick' else 1200))
     # all hydrogens (incl. sp3 carbons) under --protonate-all: their set must be pose independent as well
     for name in (['tri_ASP'] if tier == 'quick' else ['tri_ASP', 'tri_HIS', 'tri_LYS', 'lig_KNI']):
         for ax, axn in axes[:3]:
